@@ -65,7 +65,17 @@ func c14Admin(c *vlib.Ctx) {
 			c.Inconclusive("C14 admin config: " + err.Error())
 			return
 		}
-		c14Populate(r, a.Store, r.Range(20, 60))
+		// every fifth population has well over 100 matches per route, so that the
+		// default (100), the cap (1000) and a limit above the cap select different sets
+		big := ci%5 == 1
+		limits := []int{0, 1, 2, 5, 100, 1000, 1001}
+		if big {
+			c14Populate(r, a.Store, r.Range(1800, 2000))
+			limits = []int{0, 100, 101, 1000, 1001, 5000, 1 << 31}
+			c.Count("admin_populations_above_100_per_route", 1)
+		} else {
+			c14Populate(r, a.Store, r.Range(20, 60))
+		}
 		for k := 0; k < 24; k++ {
 			before := snapStore(a.Store)
 			ids := before.IDs()
@@ -74,7 +84,11 @@ func c14Admin(c *vlib.Ctx) {
 			body := map[string]any{}
 			var filter *queue.MessageManageFilterRequest
 			var idList []string
-			switch r.Intn(8) {
+			pick := r.Intn(8)
+			if big {
+				pick = 5 + r.Intn(3) // by-filter operations only
+			}
+			switch pick {
 			case 0:
 				kind, target = storecheck.KCancel, "/messages/cancel"
 			case 1:
@@ -94,16 +108,16 @@ func c14Admin(c *vlib.Ctx) {
 			}
 			byFilter := strings.HasSuffix(target, "_by_filter")
 			if byFilter {
-				filter = &queue.MessageManageFilterRequest{Route: vlib.Pick(r, stdRoutes), Limit: vlib.Pick(r, []int{0, 1, 2, 5, 100, 1000, 1001}), PreviewOnly: r.Chance(0.3)}
+				filter = &queue.MessageManageFilterRequest{Route: vlib.Pick(r, stdRoutes), Limit: vlib.Pick(r, limits), PreviewOnly: r.Chance(0.3)}
 				body["route"] = filter.Route
 				if filter.Limit != 0 {
 					body["limit"] = filter.Limit
 				}
-				if r.Chance(0.5) {
+				if r.Chance(0.5) && !(big && r.Chance(0.6)) {
 					filter.State = vlib.Pick(r, vlib.AllStates)
 					body["state"] = string(filter.State)
 				}
-				if r.Chance(0.4) && len(ids) > 0 {
+				if r.Chance(0.4) && len(ids) > 0 && !(big && r.Chance(0.6)) {
 					t := time.Unix(0, before[vlib.Pick(r, ids)].ReceivedAt).UTC()
 					filter.Before = t
 					body["before"] = t.Format(time.RFC3339Nano)
@@ -198,6 +212,26 @@ func c14Admin(c *vlib.Ctx) {
 				count = int(v)
 			}
 			preview := byFilter && filter.PreviewOnly
+			if byFilter {
+				lc := "1..100"
+				switch {
+				case filter.Limit == 0:
+					lc = "absent"
+				case filter.Limit > 1000:
+					lc = "above_cap"
+				case filter.Limit > 100:
+					lc = "101..1000"
+				}
+				all := *filter
+				all.Limit = 1000
+				mc := "<=100"
+				if m := len(storecheck.SelectByFilter(before, all, kind)); m >= 1000 {
+					mc = ">=1000"
+				} else if m > 100 {
+					mc = "101..1000"
+				}
+				c.Distinct("admin_filter_limit_vs_matches", "limit "+lc+", matches "+mc)
+			}
 			if byFilter && (out.Matched == nil || *out.Matched != len(sel)) {
 				c.Violation(vlib.Signature{"class": "matched_count", "backend": be, "op": string(kind), "preview": fmt.Sprint(preview)}, fmt.Sprintf("%s matched=%v, independent selection has %d", target, generic["matched"], len(sel)), wit)
 			}
